@@ -661,6 +661,20 @@ static void c10_gen(Rng &rng, Plan &plan, bool thorough)
 		plan.setp("fail_index", (int64_t)(j / F_COUNT));
 		plan.setp("variant", (int64_t)(plan.seed / 1000000ull * 131 + j / F_COUNT / 64));
 		plan.setp("after_fail", (int64_t)rng.below(3));
+	} else if (rng.chance(400)) {
+		// re-initialisation sweep: coder A is used on the handle (completed, or
+		// abandoned part-way, so that it still owns half-built objects), then the
+		// handle is re-initialised for coder B - the same kind more often than
+		// not, because then liblzma reuses the coder structure instead of freeing
+		// it - with the k-th allocation counted from B's init failing
+		plan.setp("mode", 2);
+		int a = (int)rng.below(F_STREAM_FLOW_COUNT);
+		int b = rng.chance(600) ? a : (int)rng.below(F_STREAM_FLOW_COUNT);
+		Op ua("use"); ua.set("flow", a).set("abandon_after", rng.chance(300) ? -1 : (int64_t)rng.below(6)); plan.ops.push_back(ua);
+		Op ub("use"); ub.set("flow", b).set("abandon_after", rng.chance(700) ? -1 : (int64_t)rng.below(6)).set("fail_rel", rng.chance(600) ? (int64_t)rng.below(6) : (int64_t)rng.below(60)); plan.ops.push_back(ub);
+		if (rng.chance(500)) { Op uc("use"); uc.set("flow", rng.chance(500) ? b : (int64_t)rng.below(F_STREAM_FLOW_COUNT)).set("abandon_after", -1); plan.ops.push_back(uc); }
+		plan.setp("fail_from", 0);
+		plan.setp("fail_permille", 0);
 	} else if (rng.chance(500)) {
 		plan.setp("mode", 1);   // from the k-th on, each allocation fails with probability p
 		plan.setp("flow", (int64_t)rng.below(F_COUNT));
@@ -721,8 +735,25 @@ static void c10_exec(const Plan &plan, Verdict &v)
 			int64_t ab = op.get("abandon_after", -1);
 			if (ab >= 0 && op.get("flow") % F_STREAM_FLOW_COUNT != F_MICROLZMA_ENC) { d->input.resize(std::min(d->input.size(), (size_t)(ab * 997 + 1))); d->full_flush_at.clear(); d->abandon = true; }
 			FlowOut fo;
+			if (op.has("fail_rel")) {
+				// count B's allocations on a fresh handle (fault-free), then fail the k-th counted from its init
+				ACtx cnt; Verdict vc; cnt.v = &vc; cnt.flow = c.flow; cnt.threaded = true;
+				FlowData dc; make_flow((int)op.get("flow") % F_STREAM_FLOW_COUNT, dc, variant);
+				if (d->abandon) { dc.input.resize(d->input.size()); dc.full_flush_at.clear(); dc.abandon = true; }
+				lzma_stream sc = LZMA_STREAM_INIT; sc.allocator = &cnt.al.a;
+				FlowOut fc; run_stream_flow(cnt, dc, &sc, fc);
+				if (dc.cleanup) dc.cleanup(&cnt.al.a);
+				lzma_end(&sc);
+				if (dc.dest_index && !dc.cleanup) lzma_index_end(dc.dest_index, nullptr);
+				uint32_t nb = cnt.al.seq ? cnt.al.seq : 1;
+				c.al.clear_faults(); c.al.reset_seq();
+				c.al.fail_nth = 1 + (uint32_t)(op.get("fail_rel") % nb);
+				c.mem_error_seen = false;
+				v.count("reach.reinit_with_failing_allocation");
+			} else if (plan.p("fail_permille", 0) == 0) c.al.clear_faults();
 			// an abandoned coder gets only part of its input and never FINISH'es
 			run_stream_flow(c, *d, &s, fo);
+			if (op.has("fail_rel") && c.al.failures > 0 && !c.mem_error_seen && !c.violated) c.viol("failure-not-reported", fmt("re-initialised coder finished with status %s although allocation #%u after the re-init failed", ret_name(fo.status), c.al.fail_nth));
 			if (d->cleanup) d->cleanup(&c.al.a);
 			if (d->dest_index && !d->cleanup) {}
 			if (c.violated) break;
